@@ -38,6 +38,7 @@ type explorer struct {
 	al         []letter
 	letters    []int        // indices of the letters this configuration enumerates
 	onlyWith   map[int]bool // when set: only paths containing one of these letters are recorded (the others belong to another configuration)
+	atMostOne  map[int]bool // at most one letter of this set per path
 	b          bounds
 	shardDepth int
 	unit       int64
@@ -306,7 +307,16 @@ func (x *explorer) explore(path []token, nmsgs, dev int, res *runResult, mine bo
 	if res.Closed || nmsgs >= x.b.maxLen || dev > x.b.dev(nmsgs+1) {
 		return
 	}
+	hasOne := false
+	for _, t := range path {
+		if t.M >= 0 && x.atMostOne[t.M] {
+			hasOne = true
+		}
+	}
 	for _, li := range x.letters {
+		if hasOne && x.atMostOne[li] {
+			continue
+		}
 		child := clonePath(path, token{M: li})
 		runIt, rec := x.owner(len(child), mine)
 		if !runIt {
@@ -353,6 +363,7 @@ func TestCheck(t *testing.T) {
 		b     bounds
 		name  string
 		extra bool // the small alphabet around the three kinds of undeterminable documents
+		trail bool // the small alphabet around the trailing-content frames (at most one per sequence)
 	}
 	var cfgs []cfg
 	if run.Thorough() {
@@ -361,6 +372,8 @@ func TestCheck(t *testing.T) {
 			{p: protoLegacy, b: bounds{maxLen: 4, devByLen: []int{3, 3, 3, 3, 2}}},
 			{p: protoTransport, b: bounds{maxLen: 5, devByLen: []int{2, 2, 2, 2, 2, 1}}, extra: true},
 			{p: protoLegacy, b: bounds{maxLen: 4, devByLen: []int{2}}, extra: true},
+			{p: protoTransport, b: bounds{maxLen: 4, devByLen: []int{2, 2, 2, 2, 1}}, trail: true},
+			{p: protoLegacy, b: bounds{maxLen: 4, devByLen: []int{2, 2, 2, 2, 1}}, trail: true},
 		}
 	} else {
 		cfgs = []cfg{
@@ -368,6 +381,8 @@ func TestCheck(t *testing.T) {
 			{p: protoLegacy, b: bounds{maxLen: 3, devByLen: []int{2}}},
 			{p: protoTransport, b: bounds{maxLen: 4, devByLen: []int{1}}, extra: true},
 			{p: protoLegacy, b: bounds{maxLen: 3, devByLen: []int{1}}, extra: true},
+			{p: protoTransport, b: bounds{maxLen: 3, devByLen: []int{1}}, trail: true},
+			{p: protoLegacy, b: bounds{maxLen: 3, devByLen: []int{1, 1, 1, 0}}, trail: true},
 		}
 	}
 	if o := os.Getenv("C19_BOUNDS"); o != "" {
@@ -393,13 +408,16 @@ func TestCheck(t *testing.T) {
 		if c.extra {
 			c.name += " (undeterminable-documents alphabet)"
 		}
+		if c.trail {
+			c.name += " (trailing-content alphabet, at most one such frame per sequence)"
+		}
 		run.Bound("max_messages:"+c.name, c.b.maxLen)
 		var d []string
 		for n := 0; n <= c.b.maxLen; n++ {
 			d = append(d, fmt.Sprintf("%d msgs: <=%d", n, c.b.dev(n)))
 		}
 		run.Bound("max_deviations:"+c.name, strings.Join(d, ", "))
-		li, _ := configLetters(c.p, c.extra)
+		li, _, _ := configLetters(c.p, c.extra, c.trail)
 		var ns []string
 		for _, k := range li {
 			ns = append(ns, alphabet(c.p)[k].Name)
@@ -444,7 +462,7 @@ func TestCheck(t *testing.T) {
 		leaked := 0
 		for _, c := range cfgs {
 			x := &explorer{run: run, p: c.p, al: alphabet(c.p), b: c.b, shardDepth: 3, shrunk: map[string]*vk.Violation{}}
-			x.letters, x.onlyWith = configLetters(c.p, c.extra)
+			x.letters, x.onlyWith, x.atMostOne = configLetters(c.p, c.extra, c.trail)
 			root := x.visit(nil, 0, run.Shard() == 0)
 			x.explore(nil, 0, 0, root, run.Shard() == 0)
 			leaked += x.leaked
@@ -468,8 +486,23 @@ func TestCheck(t *testing.T) {
 // extra configuration enumerates a small alphabet (init, query, subscription and
 // complete/stop for id 1, all three kinds of undeterminable documents) and records only
 // the paths that contain one of the two kinds the main configuration does not have.
-func configLetters(p proto, extra bool) (letters []int, onlyWith map[int]bool) {
+func configLetters(p proto, extra, trail bool) (letters []int, onlyWith, atMostOne map[int]bool) {
 	al := alphabet(p)
+	if trail {
+		// connection_init, subscribe/start(1,subscription), complete/stop(1) and every trailing-content
+		// frame; only the sequences that contain such a frame (exactly one) are recorded
+		onlyWith = map[int]bool{}
+		for i, l := range al {
+			switch {
+			case l.Trail:
+				letters = append(letters, i)
+				onlyWith[i] = true
+			case l.Kind == kInit, l.Kind == kSubscribe && l.ID == "1" && l.Sub, l.Kind == kComplete && l.ID == "1":
+				letters = append(letters, i)
+			}
+		}
+		return letters, onlyWith, onlyWith
+	}
 	first := -1
 	for i, l := range al {
 		if l.Undet {
@@ -481,7 +514,7 @@ func configLetters(p proto, extra bool) (letters []int, onlyWith map[int]bool) {
 		for i := 0; i <= first; i++ {
 			letters = append(letters, i)
 		}
-		return letters, nil
+		return letters, nil, nil
 	}
 	onlyWith = map[int]bool{}
 	for i, l := range al {
@@ -491,11 +524,12 @@ func configLetters(p proto, extra bool) (letters []int, onlyWith map[int]bool) {
 			if i != first {
 				onlyWith[i] = true
 			}
+		case l.Trail:
 		case l.Kind == kInit, l.Kind == kSubscribe && l.ID == "1", l.Kind == kComplete && l.ID == "1":
 			letters = append(letters, i)
 		}
 	}
-	return letters, onlyWith
+	return letters, onlyWith, nil
 }
 
 func names(al []letter) []string {
